@@ -67,6 +67,10 @@ def gen_case(rng):
         c["num_blocks"] = rng.randint(10, 24); c["blocks_per_file"] = rng.randint(8, 24)
     if nants > 1:
         c["delays"] = [0] * nants
+    if rng.random() < 0.3:
+        # the length asked for in seconds: n and a half blocks' worth must give exactly n blocks (dyadic rates: exact in doubles)
+        tpb = (c["block_size"] // (nants * nchans * bps)) * nb / c["sample_rate"]
+        c["obs_length"] = (c["num_blocks"] + 0.5) * tpb
     cards = []
     ncards = rng.randint(0, 8) if c["load_template"] else rng.choice([rng.randint(0, 70), rng.randint(0, 12), rng.randint(15, 25)])
     aim_aligned = (not c["load_template"]) and rng.random() < 0.3
@@ -275,8 +279,8 @@ def run(ctx):
     exprs = []
     idx = []
     for ci, (c, r) in enumerate(zip(cases, impl)):
-        if "error" in r or any(isinstance(s, dict) for s in r["struct"]):
-            continue
+        if "error" in r or any(isinstance(s, dict) for s in r["struct"]) or not r["struct"] or not r["struct"][0]:
+            continue            # nothing (usable) was written: the oracle reports it; there is no first header to compare with the model
         fin = r["final"]; ren = r["rendered"]
         def uval(k, kind, v):
             if k == "DIRECTIO" and kind == "str":
@@ -308,7 +312,7 @@ def run(ctx):
     model = dict(zip(idx, vals)) if vals is not None else {}
     for ci, (c, r) in enumerate(zip(cases, impl)):
         ctx.count(c, nontrivial=c["num_blocks"] > 1)
-        ctx.tally("template", c["load_template"]); ctx.tally("user_cards", len(c["cards"]) // 10 * 10)
+        ctx.tally("template", c["load_template"]); ctx.tally("length_given_as", "seconds" if c.get("obs_length") is not None else "blocks"); ctx.tally("user_cards", len(c["cards"]) // 10 * 10)
         dv = next((v for k, _, v in c["cards"] if k == "DIRECTIO"), "absent")
         ctx.tally("directio", repr(dv)); ctx.tally("blocks", c["num_blocks"]); ctx.tally("blocksize_mod_512", c["block_size"] % 512 == 0)
         if "error" not in r and not any(isinstance(s, dict) for s in r["struct"]):
